@@ -282,6 +282,43 @@ def generic_job():
             "family": "generic", "meta": {}}
 
 
+FWDARG_SRC = """
+from __future__ import annotations
+import dataclasses, typing
+from typing import Literal
+@dataclasses.dataclass
+class Item:
+    x: int
+@dataclasses.dataclass
+class Node:
+    value: int
+    kids: typing.List[Node]
+    item: typing.Optional[Item] = None
+@dataclasses.dataclass
+class Ping:
+    pong: typing.Optional[Pong] = None
+@dataclasses.dataclass
+class Pong:
+    ping: typing.Optional[Ping] = None
+    items: typing.Dict[str, Item] = dataclasses.field(default_factory=dict)
+IntList = list[int]
+Mode = typing.Literal["r", "w"]
+def R(text):
+    return typing.ForwardRef(text, module="vm_c09_fwdarg")
+"""
+
+
+def fwdarg_job():
+    """A ForwardRef(module=...) as ARGUMENT of a generic, naming a class, a recursive class, a type expression, a module
+    variable holding an anonymous type: a member like any other (its node is the evaluated type with its own members)."""
+    roots = ["list[R('Item')]", "dict[str, R('Item')]", "list[R('list[int]')]", "tuple[int, R('dict[str, Node]')]", "typing.Optional[R('Node')]",
+             "list[R('Node')]", "dict[str, R('IntList')]", "list[R('Mode')]", "list[R(\"Literal['r', 'w']\")]", "typing.Union[R('Ping'), R('Pong'), None]",
+             "tuple[R('Ping'), R('Pong')]", "list[R('Item | None')]", "dict[str, list[R('tuple[Item, Item]')]]", "typing.List[R('Item')]",
+             "tuple[R('Item'), R('Item')]", "list[R('typing.Optional[Node]')]"]
+    return {"prog": {"src": FWDARG_SRC, "module": "vm_c09_fwdarg"}, "roots": [{"ty": ["expr", e], "kind": "fwdarg"} for e in roots],
+            "family": "fwdarg", "meta": {}}
+
+
 def build_jobs(ctx):
     rng = ctx.rng
     jobs = []
@@ -337,6 +374,7 @@ def build_jobs(ctx):
         if isinstance(inp, dict) and "prog" in inp and "root" in inp:
             jobs.append({"prog": inp["prog"], "roots": [inp["root"]], "family": "focus", "meta": {}})
     jobs.append(generic_job())
+    jobs.append(fwdarg_job())
     return jobs
 
 
@@ -405,8 +443,9 @@ def extract(T, cap=400):
             for var, child in graph._level(u):
                 if child in (constants.empty, typing.Any):
                     continue
-                # a field hint that is a string on the signature (class annotated on __init__ only) names the type it evaluates to
-                if var is not None and type(child) is typing.ForwardRef:
+                # a member given as a reference (a string hint taken from a signature, a ForwardRef argument of a generic) names the
+                # type it evaluates to
+                if type(child) is typing.ForwardRef:
                     try:
                         child = refs.evaluate(child)
                     except (NameError, AttributeError, TypeError, SyntaxError):
@@ -500,7 +539,19 @@ def o_members(t):
                 ms += [(k, h) for k, h in typing.get_type_hints(u.__init__).items() if k != "return"]
             except Exception:  # noqa: BLE001
                 pass
-    return [(v, m) for v, m in ms if m is not typing.Any and not isinstance(m, typing.TypeVar)]
+    return [(v, o_deref(m)) for v, m in ms if m is not typing.Any and not isinstance(m, typing.TypeVar)]
+
+
+def o_deref(m):
+    """A member spelled as a reference with a module denotes what its text evaluates to there (Python's own eval, not the library's)."""
+    import sys
+    import typing
+    if type(m) is typing.ForwardRef and m.__forward_module__ in sys.modules:
+        try:
+            return eval(m.__forward_arg__, vars(sys.modules[m.__forward_module__]))
+        except Exception:  # noqa: BLE001
+            return m
+    return m
 
 
 def oracle(seq, T, refs):
